@@ -216,7 +216,8 @@ Example ex_search_second_pass :
   end.
 Proof. vm_compute. repeat split. Qed.
 
-(* nine clustered pointers, one attempt per pass: every pass exhausts its budget -> hash_search_error{4, 256} *)
+(* nine clustered pointers, one attempt per pass: every pass exhausts its budget -> hash_search_error{4, 256}
+   (written relative to `passes` so that the example survives a change of the number of passes) *)
 Definition ex_classes_err : list cls :=
   [(1, [139637976732016]); (2, [139637976732096]); (3, [139637976733200]); (4, [139637976733048]);
    (5, [139637976732936]); (6, [139637976733112]); (7, [139637976731728]); (8, [139637976732608]);
@@ -224,14 +225,24 @@ Definition ex_classes_err : list cls :=
 
 Example ex_search_error :
   match hash_initialize true ex_stream 1 init_state ex_classes_err with
-  | SearchError n b st' => n = 4 /\ b = 256 /\ h_length st' = 0 /\ length (h_control st') = 128%nat
+  | SearchError n b st' =>
+      n = N.of_nat passes * 1 /\ b = 2 ^ (4 + N.of_nat passes) /\ h_length st' = 0 /\
+      length (h_control st') = N.to_nat (2 ^ (4 + N.of_nat passes - 1))
   | _ => False
   end.
 Proof. vm_compute. repeat split. Qed.
 
+Example ex_search_error_today :
+  passes = 4%nat ->
+  match hash_initialize true ex_stream 1 init_state ex_classes_err with
+  | SearchError n b _ => n = 4 /\ b = 256
+  | _ => False
+  end.
+Proof. intros H; vm_compute in H; try discriminate H; vm_compute; repeat split. Qed.
+
 Example ex_search_error_budget_0 :
   match hash_initialize false ex_stream 0 init_state ex_classes with
-  | SearchError n b _ => n = 0 /\ b = 64
+  | SearchError n b _ => n = 0 /\ b = 2 ^ (2 + N.of_nat passes)
   | _ => False
   end.
 Proof. vm_compute. repeat split. Qed.
